@@ -272,6 +272,64 @@ def rule_r3(facts, col, sites):
                 col.ok("C06.R3", key, body.where(info["ret_bb"]), "%s is only returned before any stream effect" % verdict)
 
 
+def _skip_vectors(body, ws):
+    """every bool-vector element test whose false edge must be passed to reach work(): [(vector local, switch bb)]"""
+    out = []
+    for s in sorted(body.reachable(0)):
+        t = body.term(s)
+        if t["k"] != "switch" or t.get("dty") != "bool":
+            continue
+        x = switch_discr_expr(body, s)
+        while x is not None and x.k in ("deref", "ref"):
+            x = x.a
+        if x is None or x.k != "call" or x.q != INDEX:
+            continue
+        bt = bool_edge_targets(body, s)
+        if bt and must_pass_edge(body, ws.wbb, (s, bt[1])):
+            out.append((_root_local(body, body.term(x.bb)["args"][0]), s))
+    return out
+
+
+def rule_r6(facts, col, sites):
+    """a block is skipped only when it is finished: for EVERY per-block flag vector that keeps work() from being called, `true`
+    is stored only where the block has reported EOF or its awaited stream is closed / its inputs are at end-of-stream (the EOF
+    arm, or behind the true edge of closed() / eof()).  A flag that parks a block on an ordinary WaitForStream makes the pass
+    logic blind to data handed over by calls that do not answer Again (a source's last piece + EOF, a resampler's
+    WaitForStream after moving data): run() returns Ok with samples still in a stream."""
+    for ws in sites:
+        body = ws.body
+        if not ws.complete():
+            continue
+        vecs = _skip_vectors(body, ws)
+        cut = set()
+        for q in (CLOSEDQ, EOFQ):
+            for cbb, t in body.calls_to(q):
+                for sw, tr, fa in result_switches(body, cbb):
+                    cut.add((sw, tr))
+        eof_arm = ws.arms.get("EOF")
+        avoid = {eof_arm} if eof_arm is not None else set()
+        reached, _ = flag_search(body, [ws.ret_switch], cut_edges=cut, avoid=avoid | {ws.wbb})
+        for vl, sw in vecs:
+            key = "%s:skip-flag(_%s)" % (body.q, body.var_name_of_local(vl) or vl)
+            stores = []
+            for bb, t in body.calls_to(INDEX_MUT):
+                if _root_local(body, t["args"][0]) != vl:
+                    continue
+                dst = t["dst"]["l"]
+                for b2 in range(body.n):
+                    for st in body.blocks[b2]["stmts"]:
+                        if st["k"] == "assign" and st["dst"]["l"] == dst and st["dst"]["p"] == ["*"] and is_const(body.rvalue_expr(st["rv"]), True):
+                            stores.append(b2)
+            early = [b2 for b2 in stores if b2 in reached]
+            if early:
+                col.bad("C06.R6", key, body.where(early[0]),
+                        "a per-block flag that keeps work() from being called is set on a path where the block has neither reported EOF "
+                        "nor been found at end-of-stream (closed()/eof() true): the block is skipped while it may still have work, and a "
+                        "pass in which the remaining blocks hand data over without answering Again ends the run with samples in flight", {})
+            else:
+                col.ok("C06.R6", key, body.where(sw), "set only when the block is finished (EOF arm / closed() / eof())")
+
+
 def run(ctx):
     facts = ctx.facts("default")
     sites = st_sites(facts)
@@ -281,6 +339,8 @@ def run(ctx):
     rule_r3(facts, ctx, sites)
     rule_r5(facts, ctx, sites)
     ctx.floor("C06.R5", 1, "Graph::run pass loop")
+    rule_r6(facts, ctx, sites)
+    ctx.floor("C06.R6", 1, "per-block skip flags of Graph::run (the retired vector)")
     from . import c09
     c09.rule_r5(facts, ctx, rule_id="C06.R4")
     ctx.floor("C06.R4", 60, "WaitForStream verdicts with a visible amount (no demand that grows with a peer's backlog)")
